@@ -47,10 +47,26 @@ TableCases == {[ver |-> v, shift |-> 3, method |-> 2, enc |-> "plain", crc |-> F
                 attrs |-> IF n % 2 = 0 THEN "none" ELSE "crc32", listfile |-> (n % 3 # 0),
                 tablecomp |-> tc, nfiles |-> n] : v \in {3, 4}, tc \in BOOLEAN, n \in 1..40}
 
+\* "width" cases (both tiers): the LARGEST entry of a V3/V4 archive has a file size / stored size / position just
+\* below, at, or above a power of two, so that each bit-packed BET field crosses a width boundary on its own.  The big
+\* file is incompressible and multi-sector at shift 0: its stored size is its length + 4 (n + 1 + crc) + 4 n crc, i.e.
+\* can need one more bit than every file size (1 020 bytes are stored as 1 032).  It is added first or last, which
+\* moves the largest position through the boundaries as well.
+BigLens == {2^k + d : k \in {10, 11, 13}, d \in {-44, -24, -12, -4, -1, 0, 1}}
+WidthCases == {[ver |-> v, shift |-> 0, method |-> 2, enc |-> "plain", crc |-> cr, attrs |-> "none", listfile |-> (n % 2 = 0),
+                tablecomp |-> FALSE, nfiles |-> 3, big |-> n, bigfirst |-> (n % 3 = 0)] :
+                 v \in {3, 4}, cr \in BOOLEAN, n \in BigLens}
+\* "sector count" cases (both tiers): files of 1, 2, S/4 - 1, S/4, S/4 + 1 and many sectors with sector checksums on,
+\* at shifts 0 and 1 where more than S/4 sectors (the checksum sector then exceeds one sector) cost 64 KiB / 256 KiB
+SecCountCases == {[ver |-> v, shift |-> sh, method |-> m, enc |-> en, crc |-> TRUE, attrs |-> "none", listfile |-> TRUE,
+                   tablecomp |-> FALSE, nfiles |-> 1,
+                   seccounts |-> IF sh = 0 THEN <<1, 2, 127, 128, 129, 300>> ELSE <<255, 256, 257>>] :
+                    v \in {1, 4}, sh \in {0, 1}, m \in {0, 2}, en \in {"plain", "encfix"}}
+
 CaseSet0 == IF Thorough THEN ThoroughSet \cup {c \in Full : InQuickAllVersions(c)} \cup Draws(100)
            ELSE {c \in Full : InQuick(c)} \cup Draws(24)
 ASSUME CaseSet0 \subseteq Full
-Cases == SetToSeq(CaseSet0) \o SetToSeq(TableCases)
+Cases == SetToSeq(CaseSet0) \o SetToSeq(TableCases) \o SetToSeq(WidthCases) \o SetToSeq(SecCountCases)
 ASSUME ndJsonSerialize(IOEnv.CASES, Cases)
 ASSUME PrintT(<<"GENERATED", Len(Cases), "of", Cardinality(Full)>>)
 =============================================================================
